@@ -18,6 +18,7 @@ import (
 	"fmt"
 	"math/big"
 	"sort"
+	"strconv"
 	"time"
 )
 
@@ -34,6 +35,7 @@ type Shape struct {
 	Algs      string `json:"algs"`
 	Ber       string `json:"ber"`
 	Payload   string `json:"payload"`
+	ALen      string `json:"alen"` // "natural" or "nK": the signed-attribute set padded to exactly K content bytes
 }
 
 func derLen(n int) []byte {
@@ -131,6 +133,13 @@ func Build(s Shape, p Party, in BuildInput) []byte {
 		// two values, deliberately not in DER SET OF order
 		attrs = append(attrs, attr(oidMulti, TLV(0x0c, []byte("zz-second")), TLV(0x0c, []byte("a-first"))))
 	}
+	if len(s.ALen) > 1 && s.ALen[0] == 'n' && s.ALen != "natural" {
+		want, _ := strconv.Atoi(s.ALen[1:])
+		attrs = append(attrs, PadAttrs(want-len(bytes.Join(attrs, nil)))...)
+		if got := len(bytes.Join(attrs, nil)); got != want {
+			panic(fmt.Sprintf("cannot pad the signed attributes to %d bytes (got %d)", want, got))
+		}
+	}
 	sort.Slice(attrs, func(i, j int) bool { // DER SET OF order: by encoding
 		return bytes.Compare(attrs[i], attrs[j]) < 0
 	})
@@ -203,6 +212,30 @@ func Build(s Shape, p Party, in BuildInput) []byte {
 		return tlvIndef(0x30, append(oidDER(OidSignedData), tlvIndef(0xa0, TLV(0x30, sdBody))...))
 	}
 	return TLV(0x30, oidDER(OidSignedData), TLV(0xa0, TLV(0x30, sdBody)))
+}
+
+var oidPad = asn1.ObjectIdentifier{1, 3, 9} // short on purpose: the smallest padding attribute takes 10 bytes
+
+// PadAttr is one attribute with a UTF8String value of n characters.
+func PadAttr(oid asn1.ObjectIdentifier, n int) []byte {
+	return TLV(0x30, oidDER(oid), TLV(0x31, TLV(0x0c, bytes.Repeat([]byte{'p'}, n))))
+}
+
+// PadAttrs returns one or two attributes whose encodings take exactly need bytes together (the length octets of the
+// three nested elements grow at different sizes, so a single attribute cannot reach every total).
+func PadAttrs(need int) [][]byte {
+	for n := 0; n <= need; n++ {
+		if a := PadAttr(oidPad, n); len(a) == need {
+			return [][]byte{a}
+		}
+	}
+	first := PadAttr(append(oidPad[:len(oidPad):len(oidPad)], 1), 1)
+	for n := 0; n <= need; n++ {
+		if a := PadAttr(oidPad, n); len(a)+len(first) == need {
+			return [][]byte{first, a}
+		}
+	}
+	return nil
 }
 
 // TSTInfoOctets builds the eContent element (OCTET STRING wrapping TSTInfo) of a timestamp token.
